@@ -31,7 +31,9 @@ DEFAULTS = ["0", "7", "1234", "12345678901234567890", "'a'", "''", "'A b C'", "N
             "to_date('01','DD')", "s9.f(1, 2)", "coalesce(g(1), 0)", "uuid_generate_v4()", "nextval('s9.q'::regclass)"]
 OPTS = ["NN", "NULL", "DEF", "PK", "UQ", "REF", "UQK"]  # UQK = the MySQL spelling UNIQUE KEY
 CONTRA = [{"NN", "NULL"}, {"NULL", "PK"}, {"UQ", "UQK"}]
-REFS = ["REFERENCES o(x)", "REFERENCES o (x)", "REFERENCES s9.o(x)", "REFERENCES o(key)", "REFERENCES orders (order)", "REFERENCES o(comment)"]
+REFS = ["REFERENCES o(x)", "REFERENCES o (x)", "REFERENCES s9.o(x)", "REFERENCES o(key)", "REFERENCES orders (order)", "REFERENCES o(comment)",
+        # referenced TABLES whose unqualified name is a grammar keyword
+        "REFERENCES tag(x)", "REFERENCES comment (x)", "REFERENCES order(id)", "REFERENCES options", "REFERENCES type (x)"]
 
 
 def dval(v):
